@@ -234,10 +234,24 @@ def make_body(rng: Rng, kind: str, templater: str = "jinja") -> tuple[str, dict]
                 text = t2
                 meta["inj"].append(name)
 
+    def add_noqa() -> None:
+        # an inline suppression on one code line (it may or may not sit on a line with a violation)
+        nonlocal text
+        lines = text.split("\n")
+        cands = _code_lines(text)
+        if cands:
+            i = rng.choice(cands)
+            lines[i] = lines[i].rstrip() + "  " + rng.choice(["-- noqa", "-- noqa: LT01", "-- noqa: CP01,LT01", "-- noqa: disable=LT01", "-- noqa: PRS"])
+            text = "\n".join(lines)
+            meta["noqa"] = True
+
     if kind == "clean":
-        pass
+        if rng.chance(0.15):
+            add_noqa()
     elif kind == "fixable":
         add_fixable(rng.randint(1, 3))
+        if rng.chance(0.25):
+            add_noqa()
     elif kind == "unfixable":
         text = inj_unfixable(rng, text)
         if rng.chance(0.5):
@@ -299,6 +313,8 @@ INLINE_DIRECTIVES = [
     "-- sqlfluff:layout:type:comma:line_position:leading",
     "-- sqlfluff:dialect:bigquery",
     "-- sqlfluff:dialect:postgres",
+    "-- sqlfluff:disable_noqa_except:LT01",
+    "-- sqlfluff:disable_noqa:True",
 ]
 
 
@@ -431,6 +447,8 @@ def gen_fix_world(rng: Rng, feats: Optional[dict] = None) -> dict:
                     sec["max_line_length"] = rng.choice([30, 50, 200])
                 if rng.chance(0.15):
                     sec["ignore_templated_areas"] = "False"
+                if rng.chance(0.12):
+                    sec["disable_noqa_except"] = rng.choice(["CP01", "LT*", "PRS"])
                 if limits and rng.chance(0.7):
                     sec.update(limits.get("nested", {}))
                 if sec:
